@@ -161,6 +161,21 @@ fn lax_step(f: &mut LOHG, c: &Sx) -> Option<Sx> {
         "add_edge_target" => Sx::N(f.add_edge_target(EdgeId(d_nat(&l[1])?), d_nat(&l[2])?).0),
         "delete_edges" => {
             let e: Vec<EdgeId> = d_nats(&l[1])?.into_iter().map(EdgeId).collect();
+            // the deprecated alias must behave identically
+            #[allow(deprecated)]
+            {
+                let mut g = f.hypergraph.clone();
+                let alias = std::panic::catch_unwind(std::panic::AssertUnwindSafe(|| {
+                    g.delete_edge(&e);
+                    g
+                }));
+                let mut h = f.hypergraph.clone();
+                let real = std::panic::catch_unwind(std::panic::AssertUnwindSafe(|| {
+                    h.delete_edges(&e);
+                    h
+                }));
+                assert!(alias.ok() == real.ok(), "delete_edge alias differs");
+            }
             f.delete_edges(&e);
             Sx::L(vec![])
         }
@@ -214,7 +229,17 @@ fn lax_step(f: &mut LOHG, c: &Sx) -> Option<Sx> {
             f.targets = nids(d_nats(&l[1])?);
             Sx::L(vec![])
         }
-        "quotient" => e_q(&f.quotient()),
+        "quotient" => {
+            #[allow(deprecated)]
+            {
+                let mut g = f.clone();
+                let r1 = g.quotient_witness();
+                let mut h = f.clone();
+                let r2 = h.quotient();
+                assert!(g == h && e_q(&r1) == e_q(&r2), "quotient_witness alias differs");
+            }
+            e_q(&f.quotient())
+        }
         "h_quotient" => e_q(&f.hypergraph.quotient()),
         _ => return None,
     };
@@ -657,7 +682,12 @@ fn lax_term<K>(
         }
         "lfmap" => {
             let ft = d_ftable(&l[1]).expect("bad term");
-            Some(Val::L(ft.map_arrow(&lx(rec(&l[2]))?)))
+            let arg = lx(rec(&l[2]))?;
+            let r = ft.map_arrow(&arg);
+            #[allow(deprecated)]
+            let r2 = lax::functor::define_map_arrow(&ft, &arg);
+            assert!(r == r2, "deprecated define_map_arrow shim differs");
+            Some(Val::L(r))
         }
         "lfmap_id" => Some(Val::L(
             lax::functor::dyn_functor::Identity.map_arrow(&lx(rec(&l[1]))?),
@@ -732,7 +762,14 @@ pub fn dispatch(op: &str, a: &[Sx]) -> Option<Sx> {
             e_lhg(&g)
         }
         "lohg_from_strict" => ok(e_lohg(&LOHG::from_strict(s_to_lab(vec_ops::d_ohg(&a[0])?)))),
-        "lohg_to_strict" => ok(vec_ops::e_ohg(&s_from_lab(d_lohg(&a[0])?.to_strict()))),
+        "lohg_to_strict" => {
+            let r = vec_ops::e_ohg(&s_from_lab(d_lohg(&a[0])?.to_strict()));
+            #[allow(deprecated)]
+            let r2 = vec_ops::e_ohg(&s_from_lab(d_lohg(&a[0])?.to_open_hypergraph()));
+            assert!(r == r2, "to_open_hypergraph alias differs");
+            ok(r)
+        }
+        "lhg_is_strict" => e_bool(d_lhg(&a[0])?.is_strict()),
         "lohg_singleton" => e_lohg(&LOHG::singleton(Lab(d_nat(&a[0])?), d_nats(&a[1])?, d_nats(&a[2])?)),
         "lohg_identity" => e_lohg(&LOHG::identity(d_nats(&a[0])?)),
         "lohg_spider" => e_opt(LOHG::spider(d_ff(&a[0])?, d_ff(&a[1])?, d_nats(&a[2])?), |f| e_lohg(&f)),
